@@ -181,7 +181,7 @@ Theorem fold_combination : forall e, src_env e -> forall progs, wf_progs progs -
 Proof.
   intros e He progs Hp sched Hnw tr L Hclean Hend Hq M op unit_ f Ha Hc Hu.
   pose proof (all_C01 e He progs Hp sched Hnw) as H1. fold tr in H1.
-  cbn [check_prop] in H1. rewrite Hclean in H1. unfold chk_C01 in H1. apply andb_true_iff in H1. destruct H1 as [_ Hnl].
+  cbn [check_prop] in H1. rewrite Hclean in H1. apply andb_true_iff in H1. destruct H1 as [_ Hnl].
   unfold chk_C01_noloss in Hnl. rewrite Hend, Hq in Hnl. cbn [Z.eqb andb] in Hnl.
   pose proof (tiles_permutation _ _ Hnl) as Pt.
   assert (Hret : forall u r d, In (ERet u r d) tr -> In u L).
